@@ -85,7 +85,7 @@ Definition level_step (sub : bool) (lv : level) (c : byte) : act :=
       else if byte_eqb c BQUOTE then Bad
       else Cont (addc lv c)
   | DQB =>
-      if byte_eqb c NL then Bad
+      if byte_eqb c NL || byte_eqb c x01 then Bad   (* x01 is the internal escape byte of bash: observed to leak *)
       else if dq_escapable c then Cont (set_lx (addc lv c) DQ)
       else Cont (set_lx (addbytes lv [BSLASH; c]) DQ)
   | DQD => if byte_eqb c LPAREN then OpenSub (set_lx lv DQ) else Bad
@@ -164,7 +164,7 @@ Fixpoint printf_body (s : bytes) : option bytes :=
             end
           | None =>
             if byte_eqb e x75 || byte_eqb e x55 then None        (* unicode escapes: not modelled *)
-            else oapp [BSLASH; e] (printf_body r1)                (* unknown escape: printed as is *)
+            else ocons BSLASH (printf_body r)     (* unknown escape: the backslash is printed, reading goes on at e *)
           end
         end
       end
